@@ -79,8 +79,13 @@ Definition build_heap (objs : list (G * nat)) (fits : list (option F)) : heap G 
          (fun v => match nth_error fits v with Some f => f | None => None end)
          (length objs) (length fits).
 
-Definition snapshot (h : heap G F) : list (G * nat * option F) :=
-  map (fun u => (geno (ind_at h u), fitref (ind_at h u), fit_of h u)) (seq 0 (ni h)).
+(* per object: genotype, id of its fitness object, fitness values, and the OWNER of the mutable attribute
+   values of that fitness object (ConstrainedFitness.constraint_violation, any other attribute): the
+   harness reports the first fitness object, in canonical order, through which each such attribute object
+   is reachable.  The model's fitness cell stands for the fitness object together with its attribute
+   values, and clone allocates a fresh cell, so the prediction is "owned by its own fitness object". *)
+Definition snapshot (h : heap G F) : list (G * nat * option F * nat) :=
+  map (fun u => (geno (ind_at h u), fitref (ind_at h u), fit_of h u, fitref (ind_at h u))) (seq 0 (ni h)).
 
 (* ---- observations ---- *)
 Inductive ores := OList (l : list nat) | ORaise (e : exn).
@@ -88,10 +93,10 @@ Inductive ores := OList (l : list nat) | ORaise (e : exn).
 Inductive case :=
 | CAnd (objs : list (G * nat)) (fits : list (option F)) (pop : list nat) (cxpb mutpb : float)
        (draws : list (draw float)) (mks : list matekind) (uks : list mutkind)
-       (o_res : ores) (o_log : list event) (o_snap : list (G * nat * option F))
+       (o_res : ores) (o_log : list event) (o_snap : list (G * nat * option F * nat))
 | COr (objs : list (G * nat)) (fits : list (option F)) (pop : list nat) (lambda_ : Z) (cxpb mutpb : float)
       (draws : list (draw float)) (mks : list matekind) (uks : list mutkind)
-      (o_res : ores) (o_log : list event) (o_snap : list (G * nat * option F)).
+      (o_res : ores) (o_log : list event) (o_snap : list (G * nat * option F * nat)).
 
 Definition zl_eqb := list_eqb Z.eqb.
 Definition nl_eqb := list_eqb Nat.eqb.
@@ -120,12 +125,12 @@ Definition event_eqb (a b : event) : bool :=
   | _, _ => false
   end.
 
-Definition snap_eqb (a b : list (G * nat * option F)) : bool :=
-  list_eqb (fun x y => zl_eqb (fst (fst x)) (fst (fst y)) && Nat.eqb (snd (fst x)) (snd (fst y))
-                       && ofit_eqb (snd x) (snd y)) a b.
+Definition snap_eqb (a b : list (G * nat * option F * nat)) : bool :=
+  list_eqb (fun x y => let '(g, r, f, o) := x in let '(g', r', f', o') := y in
+                       zl_eqb g g' && Nat.eqb r r' && ofit_eqb f f' && Nat.eqb o o') a b.
 
 Definition judge (r : st G F float * (exn + list nat)) (o_res : ores) (o_log : list event)
-                 (o_snap : list (G * nat * option F)) : bool :=
+                 (o_snap : list (G * nat * option F * nat)) : bool :=
   let '(s', res) := r in
   res_eqb res o_res && list_eqb event_eqb (rev (lg s')) o_log && snap_eqb (snapshot (hp s')) o_snap
   && match dr s' with [] => true | _ => false end.   (* the model consumed exactly the recorded draws *)
